@@ -568,7 +568,7 @@ func genSingle(c *Case, r *simrt.Rand, cfg genCfg) {
 		// round fails, is retried and succeeds; everything else stays as it is
 		nf := 1 + r.Intn(2)
 		for i := 0; i < nf; i++ {
-			c.Faults = append(c.Faults, Fault{At: r.Intn(70), Kind: pick(r, []string{"write-eio", "write-short", "sync-eio", "sync-eio", "stat-eio", "stat-eio"}), Count: pick(r, []int{1, 1, 2}), Frac: r.Intn(1000)})
+			c.Faults = append(c.Faults, Fault{At: r.Intn(70), Kind: pick(r, []string{"write-eio", "write-short", "sync-eio", "sync-eio", "stat-eio", "mmap-fail", "mmap-fail", "mmap-fail"}), Count: pick(r, []int{1, 1, 2}), Frac: r.Intn(1000)})
 		}
 	}
 	if store && g.kids && g.merges && len(g.names) > 0 && r.Chance(0.25) {
